@@ -661,6 +661,7 @@ func c08(r *mon.R) {
 		"same value in another encoding => must be rejected on group/edwards25519, recorded elsewhere. eddsa: per (seed, message length) public key, private-key encoding and signature byte-identical to crypto/ed25519, signing deterministic, " +
 		"same corpus with kyber-accept => std-accept. pred: IsCanonical/HasSmallOrder vs the model. ring: suites x ring size 1..8 x every signer index x {unlinkable, linkable}; honest verify, tag = x*H(scope), " +
 		"mutations of message, ring (replace/swap/rotate/drop/append), scope, every signature field; tag relations across messages, rings, keys, scopes. " +
+		"reuse: one EdDSA object loading key sequences from a reused buffer / fresh buffers / after NewEdDSA, re-judged against crypto/ed25519 after each load and after the caller overwrote its buffer; one Schnorr suite/Scheme and the same key/message/signature objects across repeated honest and dishonest verifications; one anon.Set object across Sign/Verify rounds; every call must leave its inputs byte-identical and repeated calls must give the same verdict. " +
 		"distinct = (group/suite, job, class, variant); non-trivial = the mutated input differs in bytes from the honest one (honest cases: key is not the neutral element)")
 	r.Assume("crypto/ed25519, crypto/sha512 and math/big of the Go standard library are the reference for Ed25519/EdDSA")
 	r.Assume("outside Ed25519 and P-256 the semantic-equality classifier trusts kyber's UnmarshalBinary+Equal on fresh receivers (their correctness is C03/C04's subject)")
@@ -737,6 +738,12 @@ func c08(r *mon.R) {
 				}
 			}
 		}
+	}
+	// --- reuse workloads (objects, buffers, suites and rings shared across calls)
+	if sel("reuse") {
+		c08ReuseJobs(r, *flagGroups, func(kind, where string, idx, weight int, run func()) {
+			jobs = append(jobs, job{kind, where, idx, weight, run})
+		})
 	}
 	sort.SliceStable(jobs, func(a, b int) bool { return jobs[a].weight > jobs[b].weight })
 	mon.Parallel(len(jobs), func(w, i int) {
